@@ -2088,3 +2088,97 @@ func c20R7(c *Ctx, r *Report) {
 	}
 	r.Floor(rule, n, 10, "functions of package toml")
 }
+
+// ---- C19.R9: the sign of a number literal -------------------------------------------------------------------
+
+func init() {
+	lateInits = append(lateInits, func() {
+		props["C19"].Quick = append(props["C19"].Quick, c19R9)
+		props["C19"].Explanation += " (R9) if the lexer's number pattern admits a leading minus sign, the number handler decides from the tokens already produced whether the sign belongs to the literal, and can emit it as the MINUS operator: `7-5` and `x -5` lex like `7 - 5`."
+	})
+}
+
+func c19R9(c *Ctx, r *Report) {
+	const rule = "C19.R9"
+	r.Describe(rule, "lexer: when numeric.NumberPattern starts with an optional '-', the handler registered with it reads Lexer.Tokens (directly or through a lexer method) on a path before it pushes the NUMBER token, and refers to tokens.MINUS_TOKEN")
+	pat, _ := c.lookupObj("internal/utils/numeric", "NumberPattern").(*types.Const)
+	newFn := c.LookupFn(pkgLexer, "New")
+	tokField := c.fieldObj(pkgLexer, "Lexer", "Tokens")
+	if !r.Anchor(rule, pat != nil && newFn != nil && tokField != nil, "numeric.NumberPattern / lexer.New / Lexer.Tokens") {
+		return
+	}
+	if !strings.HasPrefix(constant.StringVal(pat.Val()), "-?") {
+		r.OK(rule, "numeric.NumberPattern", "the number pattern has no sign", c.pos(pat.Pos()), "a minus sign is always the operator token; negative literals are unary expressions")
+		return
+	}
+	// the handler registered with NumberPattern
+	info := newFn.Info()
+	var handler *Fn
+	ast.Inspect(newFn.Decl.Body, func(x ast.Node) bool {
+		cl, ok := x.(*ast.CompositeLit)
+		if !ok || len(cl.Elts) != 2 {
+			return true
+		}
+		uses := false
+		ast.Inspect(cl.Elts[0], func(y ast.Node) bool {
+			if id, ok := y.(*ast.Ident); ok && info.Uses[id] == types.Object(pat) {
+				uses = true
+			}
+			return true
+		})
+		if uses {
+			if f, ok := objOf(info, cl.Elts[1]).(*types.Func); ok {
+				handler = c.FnOf(f)
+			}
+		}
+		return true
+	})
+	if !r.Anchor(rule, handler != nil, "lexer.New: handler registered with numeric.NumberPattern") {
+		return
+	}
+	hinfo := handler.Info()
+	readsTokens := func(fn *Fn) bool {
+		hit := false
+		ast.Inspect(fn.Decl.Body, func(x ast.Node) bool {
+			if sel, ok := x.(*ast.SelectorExpr); ok && fn.Info().Uses[sel.Sel] == types.Object(tokField) {
+				// a read: not the target of the append in push (lex.Tokens = append(lex.Tokens, …)) only
+				hit = true
+			}
+			return true
+		})
+		return hit
+	}
+	looksBack, minus := false, false
+	var firstPush token.Pos
+	for _, cl := range callsIn(handler.Decl.Body, false) {
+		f := callee(hinfo, cl)
+		if f == nil {
+			continue
+		}
+		if f.Name() == "push" {
+			if firstPush == token.NoPos || cl.Pos() < firstPush {
+				// the push of the NUMBER token
+				if strings.Contains(exprStr(cl), "NUMBER_TOKEN") {
+					firstPush = cl.Pos()
+				}
+			}
+			continue
+		}
+		if hf := c.FnOf(f); hf != nil && f.Name() != "advance" && f.Name() != "remainder" && readsTokens(hf) {
+			looksBack = true
+		}
+	}
+	ast.Inspect(handler.Decl.Body, func(x ast.Node) bool {
+		if sel, ok := x.(*ast.SelectorExpr); ok {
+			if sel.Sel.Name == "MINUS_TOKEN" {
+				minus = true
+			}
+			if hinfo.Uses[sel.Sel] == types.Object(tokField) {
+				looksBack = true
+			}
+		}
+		return true
+	})
+	r.Check(looksBack && minus && firstPush != token.NoPos, rule, handler.Name(), "the sign of a number depends on the preceding token", c.pos(handler.Decl.Pos()),
+		"the number pattern takes a leading '-' into the literal and its handler never looks at what precedes it: `7-5` and `x -5` lex as two operands in a row (`expected ';'`) while `7 - 5` is a subtraction — the spacing decides whether the program compiles")
+}
